@@ -3,6 +3,9 @@
 (* C13 -- the keep-alive loop (keepalive.go) as a function of the sequence  *)
 (* of ping outcomes.  Letters:                                              *)
 (*   "ok"            the response arrives within the timeout                *)
+(*   "slow"          the response arrives within the timeout, but later than *)
+(*                   the next tick (interval < latency < timeout): the peer   *)
+(*                   is not silent, the loop keeps running                    *)
 (*   "fail"          Ping fails at once with an error E, nothing cancelled   *)
 (*   "hang"          no response: Ping returns when its context expires      *)
 (*   "cancelBefore"  the caller's context is cancelled while the loop waits  *)
@@ -15,7 +18,8 @@
 EXTENDS Integers, Sequences, FiniteSets, TLC, Json, SequencesExt
 
 CONSTANT MaxLen
-Letters == {"ok", "fail", "hang", "cancelBefore", "cancelDuring"}
+Letters == {"ok", "slow", "fail", "hang", "cancelBefore", "cancelDuring"}
+Answered == {"ok", "slow"}
 
 VARIABLES pc, script, pos, pings, parentCancelled, pingErr, timedOut, result
 vars == <<pc, script, pos, pings, parentCancelled, pingErr, timedOut, result>>
@@ -37,7 +41,7 @@ Ping == /\ pc = "ping"
         /\ pings' = pings + 1
         /\ IF parentCancelled
            THEN /\ pingErr' = "ctx" /\ timedOut' = FALSE /\ UNCHANGED parentCancelled
-           ELSE CASE Cur = "ok" -> /\ pingErr' = "none" /\ timedOut' = FALSE /\ UNCHANGED parentCancelled
+           ELSE CASE Cur \in Answered -> /\ pingErr' = "none" /\ timedOut' = FALSE /\ UNCHANGED parentCancelled
                   [] Cur = "fail" -> /\ pingErr' = "E" /\ timedOut' = FALSE /\ UNCHANGED parentCancelled
                   [] Cur = "hang" -> /\ pingErr' = "ctx" /\ timedOut' = TRUE /\ UNCHANGED parentCancelled
                   [] Cur = "cancelDuring" -> /\ pingErr' = "ctx" /\ timedOut' = FALSE /\ parentCancelled' = TRUE
@@ -57,12 +61,12 @@ Spec == Init /\ [][Next]_vars /\ WF_vars(Next)
 \* a timeout is declared only if a response did not arrive in time and the caller did not cancel
 TimeoutOnlyForSilence == (result = "pingtimeout") => (Cur = "hang" /\ ~parentCancelled)
 CancelWins == (pc = "done" /\ parentCancelled) => result = "canceled"
-KeepsRunningWhileAnswered == (pc = "done") => \A i \in 1..(pos - 1) : script[i] = "ok"
+KeepsRunningWhileAnswered == (pc = "done") => \A i \in 1..(pos - 1) : script[i] \in Answered
 OnePingPerTick == pings <= pos
 Terminates == <>(pc = "done")
 
 \* ---- closed form used to generate the test table ----
-FirstBad(s) == LET B == {i \in 1..Len(s) : s[i] # "ok"} IN IF B = {} THEN Len(s) + 1 ELSE CHOOSE i \in B : \A j \in B : i <= j
+FirstBad(s) == LET B == {i \in 1..Len(s) : s[i] \notin Answered} IN IF B = {} THEN Len(s) + 1 ELSE CHOOSE i \in B : \A j \in B : i <= j
 Expected(s) == LET k == FirstBad(s)
                    c == IF k <= Len(s) THEN s[k] ELSE "cancelBefore"
                IN [pings |-> k, res |-> CASE c = "fail" -> "E" [] c = "hang" -> "pingtimeout" [] OTHER -> "canceled"]
